@@ -71,7 +71,7 @@ def gen_history(rng, maxlen):
         else:
             ops.append(["initialize"])
     # how a session often ends: the model is complete and has been used, then one more edit is made before the next run
-    tail = rng.below(6)
+    tail = rng.below(7)
     if tail == 0:
         ops += [["initialize"], rule_op()]
     elif tail == 1:
@@ -80,6 +80,10 @@ def gen_history(rng, maxlen):
         ops += [["initialize"], ["setSpecies", [[rng.choice(SPECIES), float(rng.randint(0, 9))]]]]
     elif tail == 3:
         ops += [["addSpecies", rng.choice(["S", "R"])], ["initialize"], rule_op()]
+    elif tail == 5:
+        # an initialisation that fails (a rate constant has no value yet), then the missing value is supplied: the model
+        # must not count as initialised in between (a species that was never given a value still defaults to 0)
+        ops += [["createMassAction", [rng.choice(SPECIES)], [rng.choice(SPECIES)], {"name": "k9"}], ["initialize"], ["setParameter", "k9", rng.choice(VALS)]]
     elif tail == 4:
         # the model has been used; then a delayed reaction is added
         ops += [["initialize"], ["createDelayed", [rng.choice(SPECIES)], [], {"name": rng.choice(PARAMS)}, [rng.choice(SPECIES)], rng.choice(PARAMS)]]
